@@ -596,6 +596,7 @@ struct Driver<'m, 'a> {
     alphabet: u32,
     import_uid: u32,
     void_type: u32,
+    alt_counter: u32,
 }
 
 fn numeric(t: VT) -> bool {
@@ -698,11 +699,24 @@ impl<'m, 'a> Driver<'m, 'a> {
     fn inject_ops(&mut self, into: u32, at: usize, ops: Vec<wasmparser::Operator<'static>>, after: bool) -> Result<(), PanicInfo> {
         let ident = self.model.funcs[&into].ident.clone();
         let syms: Vec<String> = ops.iter().map(|o| self.model.sym_injected(o)).collect();
+        // 1 in 5 of the "before" injections is made as an ALTERNATE that ends with the instruction it replaces (same code, other list);
+        // not on structural keywords, not on the final end, and only once per site
+        let body = &self.model.bodies[&ident];
+        let name = body[at].split(':').next().unwrap_or("").to_string();
+        let alt_key = format!("~inj[{}][{:05}][alt]", ident, at);
+        let as_alt = !after
+            && at + 1 < body.len()
+            && !matches!(name.as_str(), "Block" | "Loop" | "If" | "Else" | "End" | "TryTable" | "Try")
+            && !self.model.flat.contains_key(&alt_key)
+            && self.alt_toggle();
         let m = &mut *self.m;
         catch(|| {
+            let orig = if as_alt { Some(m.functions.get(FunctionID(into)).unwrap_local().body.instructions[at].op.clone()) } else { None };
             let mut fm = m.functions.get_fn_modifier(FunctionID(into)).expect("modifier of a live local function");
             let loc = Location::Module { func_idx: FunctionID(into), instr_idx: at };
-            if after {
+            if as_alt {
+                fm.alternate_at(loc);
+            } else if after {
                 fm.after_at(loc);
             } else {
                 fm.before_at(loc);
@@ -711,7 +725,23 @@ impl<'m, 'a> Driver<'m, 'a> {
                 use wirm::opcode::Inject;
                 fm.inject(o);
             }
+            if let Some(o) = orig {
+                use wirm::opcode::Inject;
+                fm.inject(o);
+            }
         })?;
+        if as_alt {
+            // model: the instruction is replaced by the injected code followed by itself
+            let e = self.model.flat.entry(alt_key).or_default();
+            for s in syms {
+                if !e.is_empty() {
+                    e.push('\u{1}');
+                }
+                e.push_str(&s);
+            }
+            self.model.log.push("  (as alternate ending with the replaced instruction)".to_string());
+            return Ok(());
+        }
         let body = self.model.bodies.get_mut(&ident).unwrap();
         let pos = if after { at + 1 } else { at };
         // several injections at one site: before-code accumulates in order, directly in front of the instruction;
@@ -719,6 +749,12 @@ impl<'m, 'a> Driver<'m, 'a> {
         let _ = pos;
         self.pending_insert(ident, at, after, syms);
         Ok(())
+    }
+
+    /// every fifth eligible injection becomes an alternate (a counter, so that recorded choice tapes stay valid)
+    fn alt_toggle(&mut self) -> bool {
+        self.alt_counter += 1;
+        self.alt_counter % 3 == 0
     }
 
     fn pending_insert(&mut self, ident: String, at: usize, after: bool, syms: Vec<String>) {
@@ -738,6 +774,7 @@ impl<'m, 'a> Driver<'m, 'a> {
 pub fn finish_bodies(model: &mut Model) {
     let keys: Vec<String> = model.flat.keys().filter(|k| k.starts_with("~inj[")).cloned().collect();
     let mut per_func: BTreeMap<String, BTreeMap<(usize, bool), Vec<String>>> = BTreeMap::new();
+    let mut alts: BTreeMap<String, BTreeMap<usize, Vec<String>>> = BTreeMap::new();
     for k in keys {
         let v = model.flat.remove(&k).unwrap();
         // ~inj[ident][idx][mode]
@@ -747,7 +784,14 @@ pub fn finish_bodies(model: &mut Model) {
         let rest = &inner[close + 2..];
         let idx: usize = rest[..5].parse().unwrap();
         let after = rest.contains("after");
+        if rest.contains("[alt]") {
+            alts.entry(ident).or_default().insert(idx, v.split('\u{1}').map(|s| s.to_string()).collect());
+            continue;
+        }
         per_func.entry(ident).or_default().insert((idx, after), v.split('\u{1}').map(|s| s.to_string()).collect());
+    }
+    for ident in alts.keys() {
+        per_func.entry(ident.clone()).or_default();
     }
     for (ident, ins) in per_func {
         if let Some(body) = model.bodies.get(&ident).cloned() {
@@ -756,6 +800,9 @@ pub fn finish_bodies(model: &mut Model) {
             for (i, op) in body.iter().enumerate() {
                 if let Some(b) = ins.get(&(i, false)) {
                     nb.extend(b.iter().cloned());
+                }
+                if let Some(a) = alts.get(&ident).and_then(|m| m.get(&i)) {
+                    nb.extend(a.iter().cloned());
                 }
                 nb.push(op.clone());
                 if i != last {
@@ -791,7 +838,7 @@ pub fn run_history_with_plan(g: &GenModule, rng: &mut Rng, cfg: &HistoryCfg, enc
         Err(p) => return Err(format!("parse panic on valid base: {}", p.sig())),
     };
     let void_type = g.types.iter().position(|t| matches!(t, TyInfo::Func(p, r) if p.is_empty() && r.is_empty())).unwrap_or(0) as u32;
-    let mut d = Driver { m: &mut module, model, g, alphabet: cfg.alphabet, import_uid: 0, void_type };
+    let mut d = Driver { m: &mut module, model, g, alphabet: cfg.alphabet, import_uid: 0, void_type, alt_counter: 0 };
     let n = rng.range(1, cfg.max_len.max(1));
     let mut call_panic = None;
     let mut done = 0;
